@@ -44,7 +44,7 @@ FAMILIES = {
     # exhaustive, tiny: one provider holding leases of two deployments with different requirements (C08 update guard)
     "RX": dict(BASE, Tenants=["t1"], Providers=["p1"], Auditors=[], DSeqs=[1, 2], GSeqs=[1], OSeqs=[1],
                GroupChoices="GroupChoicesRX", DepositChoices=[3], PriceChoices=[1], AmountChoices=[], AttrChoices="AttrChoicesRX",
-               Versions=[1], Gaps=[], InitCoins=8, MaxHeight=1),
+               Versions=[1], Gaps=[], InitCoins=8, MaxHeight=1, Variants=True),
     # exhaustive, small (quick tier): one provider x two order generations / two providers x one order generation
     "SQ1": dict(BASE, Tenants=["t1"], Providers=["p1"], Auditors=[], DSeqs=[1], GSeqs=[1], OSeqs=[1, 2],
                 GroupChoices="GroupChoicesS", DepositChoices=[2, 3], PriceChoices=[1, 2], AmountChoices=[1],
